@@ -1,35 +1,25 @@
 #!/usr/bin/env python3
 """Runs every registered quick check against every seeded change under /verif/seeded (each applied to a
-scratch copy of /repo that is removed afterwards) and prints / writes the detection matrix."""
-import sys,os,json,subprocess,tempfile,shutil,glob,concurrent.futures
-man=json.load(open('/verif/MANIFEST.json'))
-props=[c['property_id'] for c in man['checks']]
+scratch copy of /repo that is removed afterwards) and prints / writes the detection matrix. One
+checker process per change (vischeck -matrix: one load of the variant, all rule sets)."""
+import sys,os,json,glob,concurrent.futures
+sys.path.insert(0,os.path.dirname(os.path.abspath(__file__)))
+from matrixrun import run_matrix
 seeds=sorted(glob.glob('/verif/seeded/*/patch.diff'))
 flt=sys.argv[1] if len(sys.argv)>1 else ''
 def run(pf):
     sid=os.path.basename(os.path.dirname(pf))
-    S=tempfile.mkdtemp(prefix='variant.',dir='/tmp')
-    try:
-        os.makedirs(S+'/verif')
-        subprocess.check_call(['rsync','-a','--exclude','.git','/repo/',S+'/repo/'])
-        shutil.copy('/verif/known_findings.json',S+'/verif/'); open(S+'/verif/MANIFEST.json','w').write('{}')
-        if subprocess.run(['patch','-p1','-s','-i',pf],cwd=S+'/repo').returncode!=0: return sid,{'_':'patch failed'},{}
-        res={};rules={}
-        for p in props:
-            r=subprocess.run(['/verif/bin/vischeck','-p',p,'-repo',S+'/repo','-verif',S+'/verif'],capture_output=True,text=True)
-            res[p]=r.returncode
-            rules[p]=sorted(set(l.split()[1] for l in r.stdout.splitlines() if l.startswith('VIOLATED')))
-        return sid,res,rules
-    finally:
-        shutil.rmtree(S,ignore_errors=True)
+    return (sid,)+run_matrix(pf)
 out={}
 with concurrent.futures.ThreadPoolExecutor(max_workers=6) as ex:
-    for sid,res,rules in ex.map(run,[s for s in seeds if flt in s]):
+    for sid,res,rules,lines in ex.map(run,[s for s in seeds if flt in s]):
         own=sid.split('-')[0]
+        if res is None:
+            print(sid,'PATCH FAILED',flush=True); continue
         caught=[p for p,rc in res.items() if rc==1]
         other=[p for p,rc in res.items() if rc not in (0,1)]
         out[sid]={'caught_by':{p:rules[p] for p in caught},'exit2':other}
-        print(f"{sid}: own check {'CATCHES' if own in caught else 'MISSES '}; caught by {', '.join(p+str(rules[p]) for p in caught) or '-'}"+(f"; exit2: {other}" if other else ''))
+        print(f"{sid}: own check {'CATCHES' if own in caught else 'MISSES '}; caught by {', '.join(p+str(rules[p]) for p in caught) or '-'}"+(f"; exit2: {other}" if other else ''),flush=True)
 if flt:
     try:
         old=json.load(open('/verif/seeded/MATRIX.json'))
